@@ -219,6 +219,59 @@ BOOM_SCHEMA = {"keytype": None, "datatype": None, "handler": None, "abstract": [
                "datatype": "zcv.dt.boom"}]}
 
 
+def stress_texts():
+    return [
+        "k " + "$$" * 3000 + "\n",
+        "%define a v\nk " + "$a" * 2500 + "\n",
+        "%define a v\nk " + "${A}-" * 2000 + "\n",
+        "%define a " + "$$" * 2000 + "\nk $a\n",
+        "k " + "$nope" * 1500 + "\n",
+        "%import " + "$$" * 1500 + "\n",
+        "%include " + "$$" * 1500 + "\n",
+        "k " + "x" * 200000 + "\n",
+        "".join("<t1>\n" for _ in range(1500)) + "".join("</t1>\n" for _ in range(1500)),
+        "".join("<s%d>\n" % i for i in range(400)),
+        "".join("k%d v\n" % i for i in range(20000)),
+        "<" * 5000 + "\n",
+        "<a " + "b" * 100000 + ">\n</a>\n",
+        "(" * 10000 + "\n",
+    ]
+
+
+STRESS_SCHEMA = {"keytype": None, "datatype": None, "handler": None, "abstract": [], "types": [
+    {"name": "t1", "keytype": None, "datatype": None, "implements": None, "extends": None,
+     "items": [{"kind": "multisection", "name": "*", "attribute": "subs", "required": False,
+                "handler": None, "type": "T1x"}]}],
+    "items": [{"kind": "multisection", "name": "*", "attribute": "secs", "required": False,
+               "handler": None, "type": "t1"},
+              {"kind": "multikey", "name": "k", "attribute": None, "required": False, "handler": None,
+               "datatype": "string"},
+              {"kind": "key", "name": "+", "attribute": "rest", "required": False, "handler": None,
+               "datatype": "string", "defaults": []}]}
+STRESS_XML = """<schema>
+  <sectiontype name="t1">
+    <multisection type="t1" name="*" attribute="subs"/>
+    <multikey name="k" attribute="k"/>
+  </sectiontype>
+  <multisection type="t1" name="*" attribute="secs"/>
+  <multikey name="k" attribute="k"/>
+  <key name="+" attribute="rest"/>
+</schema>
+"""
+
+
+def check_stress():
+    out = []
+    schema = loadcheck.load_schema_xml(STRESS_XML)
+    for i, text in enumerate(stress_texts()):
+        got = loadcheck.real_load(schema, text, url=MAIN)
+        if got[0] == "internal":
+            sig = classify_exception(got[1], got[2], got[3])
+            if sig:
+                out.append((sig, "stress text #%d (%d characters): %s" % (i, len(text), str(got[1])[:120])))
+    return out
+
+
 def check_passthrough():
     from zcv import dt as zdt
     out = []
@@ -234,6 +287,8 @@ def evaluate(case):
     kind = case.get("kind", "text")
     if kind == "passthrough":
         return [failure(s, case, d) for s, d in check_passthrough()]
+    if kind == "stress":
+        return [failure(s, case, d) for s, d in check_stress()]
     try:
         xml = gen.render_schema(case["schema"])
         if xml not in _XML_CACHE:
@@ -275,6 +330,9 @@ def run_shard(spec):
         res.evaluations += 1
         for sig, d in check_passthrough():
             res.fail(sig, {"kind": "passthrough"}, d)
+        res.evaluations += len(stress_texts())
+        for sig, d in check_stress():
+            res.fail(sig, {"kind": "stress"}, d)
     for i in range(spec["lo"], spec["hi"]):
         rng = loadcheck.case_rng(spec["seed"] + 707, i)
         ast = gen.gen_schema(rng)
